@@ -40,7 +40,10 @@ import (
 	_ "github.com/sassoftware/relic/v8/signers/msi"
 	_ "github.com/sassoftware/relic/v8/signers/pecoff"
 	_ "github.com/sassoftware/relic/v8/signers/pgp"
+	_ "github.com/sassoftware/relic/v8/signers/cosign"
+	_ "github.com/sassoftware/relic/v8/signers/macho"
 	_ "github.com/sassoftware/relic/v8/signers/ps"
+	_ "github.com/sassoftware/relic/v8/signers/vsix"
 )
 
 // auxDir is an untracked scratch directory for harness-side files (fixture
